@@ -254,6 +254,19 @@ pub fn c17(tier: &str) -> i32 {
             }
         }
     }
+    // signs of the parameters: the documented probability is |demand*tanh(scale*M)|/n and the side
+    // follows the sign of M alone, for every demand/scale setting - also negative ones
+    for multi in [false, true] {
+        for n in 1..=2u16 {
+            for decay in [1.0, 0.5] {
+                for (demand, scale) in [(-100.0, 0.5), (100.0, -0.5), (-100.0, -0.5), (-0.6 * n as f64, 10.0)] {
+                    for ratio in [0.0, 1.0] {
+                        params.push(Params { centre: CENTRE, big_moves: false, multi, tick: 1, n, decay, scale, demand, ratio });
+                    }
+                }
+            }
+        }
+    }
     // mid-prices beyond 2^24 (where a 32-bit float no longer holds a half tick) with small and with huge moves
     for multi in [false, true] {
         for n in 1..=2u16 {
@@ -375,7 +388,7 @@ pub fn c17(tier: &str) -> i32 {
     out.set(
         "bounds",
         json!({"moves_per_round_in_ticks": [-2, -1, -0.5, 0, 0.5, 1, 2], "starting_levels_in_ticks": [500, 20_000_011], "huge_moves_in_ticks": [-3_000_000, -1_200_000, 0, 1_200_000, 3_000_000], "max_path_length": max_len, "decay": [1.0, 0.5], "scale": [0.5, 10.0],
-               "demand": ["100 (saturated)", "0.6*n (unsaturated)"], "order_ratio": [0, 0.5, 1], "traders": "1..3", "ticks": [1, 2], "multi_asset": [false, true],
+               "demand": ["100 (saturated)", "0.6*n (unsaturated)", "-100 and -0.6*n, scale -0.5 (negative parameters)"], "order_ratio": [0, 0.5, 1], "traders": "1..3", "ticks": [1, 2], "multi_asset": [false, true],
                "last_round_answers": "default stream, all-zero, all-ones, mid; with ratio 0 every combination of {0, p-1e-9, p+1e-9, 1-1e-12} per trader"}),
     );
     out.push("samples", json!({"mid_level_offsets_in_half_ticks": small_paths[7], "params": format!("{:?}", params[3])}));
